@@ -276,6 +276,7 @@ def main():
     debye = 1.0e-21 / const.c                     # C m
     forms = ["float", "int-array", "int-list", "mixed", "float", "int-array",
              "int-list", "float32"]   # (tuples are refused by the setter)
+    shared_params = {}
     for s in range(32 if ck.thorough else 16):
         form = forms[s % len(forms)]
         d1, d2 = rng.randn(3) * 3, rng.randn(3) * 3
@@ -334,6 +335,22 @@ def main():
             if e > ptol or e2 > ptol:
                 ck.violation("point-dipole", "formula:" + form, dict(
                     rp, got=got, want=want_int, rel=e, rel_cm=e2), rp)
+            # the other public entry point, with one parameter dictionary
+            # per eps_r shared by all aggregates of this run (as in a loop
+            # over geometries)
+            pd = shared_params.setdefault(epsr, dict(epsr=epsr))
+            ag2 = qr.Aggregate([m1, m2])
+            ag2.calculate_resonance_coupling(method="dipole-dipole",
+                                             params=pd)
+            with qr.energy_units("int"):
+                got2 = float(ag2.get_resonance_coupling(0, 1))
+            e3 = abs(got2 - want_int) / abs(want_int)
+            ck.case("point-dipole-by-method", s,
+                    sample=dict(rp, got=got2, want=want_int, rel=e3))
+            if e3 > ptol:
+                ck.violation("point-dipole", "by-method:" + form, dict(
+                    rp, got=got2, want=want_int, rel=e3,
+                    entry="calculate_resonance_coupling"), rp)
 
     ck.assume("two-level molecules; TLC bound N <= 4 (5), multiplicity 1, 2; "
               "coded parameters are exactly representable so elements are "
